@@ -12,7 +12,7 @@ import (
 
 var c08Lines = []string{
 	`{}`, `[1]`, `{"a":"x\ny"}`, `["a b"]`, `[true]`,
-	`[`, `1`, `{} {}`, `[1,`, `2]`, `}`,
+	`[`, `1`, `{} {}`, `[1,`, `2]`, `}`, `[falsx]`,
 	``, ` `, "\t", "\r",
 	// a document spanning two lines through a string with a raw line feed in it
 	`{"id":7,"note":"first half`, `second half"}`,
@@ -24,7 +24,7 @@ func forEachNDInput(w *W, fn func(name string, text []byte)) {
 	if w.Thorough() {
 		L = 5
 	}
-	w.Note(fmt.Sprintf("line sequences: all sequences of <= %d lines over %d lines (5 valid documents, 6 invalid, 4 blank, 2 halves of a document split inside a string) x {LF, CRLF} x {final newline, none}", L, len(c08Lines)))
+	w.Note(fmt.Sprintf("line sequences: all sequences of <= %d lines over %d lines (5 valid documents, 7 invalid, 4 blank, 2 halves of a document split inside a string) x {LF, CRLF} x {final newline, none}", L, len(c08Lines)))
 	var seq []int
 	var last []byte
 	emit := func() {
